@@ -273,12 +273,46 @@ def check(case, ctx):
             ctx.violation("avg_sensitivity", f"avg_sensitivity({n!r}) = {r}, exact value {sum(want_infl.values())}")
 
 
+    # ------------------------------------------------------------ several nodes in one call
+    others = sorted(x for x, t in net.types.items() if x != n and t in sim.GATES and any(net.types[y] == "input" for y in reach(net.preds, [x])))
+    if not others or (len(cd["nodes"]) + len(cd["edges"])) % 3:
+        return
+    n2 = others[len(cd["edges"]) % len(others)]
+    sp2 = sorted(x for x in reach(net.preds, [n2]) | {n2} if net.types[x] == "input")
+    if len(sp2) > 6:
+        return
+    want2 = {s: Fraction(sim.popcount(vals[n2] ^ flip_var(vals[n2], ins.index(s), k)), 1 << k) for s in sp2}
+    for order in ([n, n2], [n2, n]):
+        ok, r = ctx.call(cg.props.influence, c, list(order), approx=False)
+        ctx.count("cmp:influence_of_two_nodes")
+        if not ok:
+            ctx.violation("influence_raised", f"influence({order!r}, approx=False) raised {r!r}\n{getattr(r, '_tb', '')}")
+            return
+        try:
+            got = {x: {s: Fraction(v) for s, v in d.items()} for x, d in r.items()}
+        except Exception:  # noqa: BLE001
+            got = None
+        if got != {n: want_infl, n2: want2}:
+            ctx.violation("influence_list", f"influence({order!r}) = {r}, exact fractions are { {x: {s: str(v) for s, v in d.items()} for x, d in {n: want_infl, n2: want2}.items()} }")
+            return
+    ok, r = ctx.call(cg.props.avg_sensitivity, c, [n, n2], approx=False)
+    if not ok:
+        ctx.violation("avg_sensitivity_raised", f"avg_sensitivity({[n, n2]!r}, approx=False) raised {r!r}")
+    else:
+        try:
+            got = {x: Fraction(v) for x, v in r.items()}
+        except Exception:  # noqa: BLE001
+            got = None
+        if got != {n: sum(want_infl.values()), n2: sum(want2.values())}:
+            ctx.violation("avg_sensitivity_list", f"avg_sensitivity({[n, n2]!r}) = {r}, exact values { {n: str(sum(want_infl.values())), n2: str(sum(want2.values()))} }")
+
+
 def gates(counters, table, tier):
     out = []
     for s in (1, 2, 3, 4, 5, 6, 7, 8):
         if counters.get(f"cone_startpoints:{s}", 0) < 3:
             out.append(f"cone with {s} startpoints seen {counters.get(f'cone_startpoints:{s}', 0)} times")
-    for k in ("mode:input", "mode:const_fn", "mode:output", "explicit_endpoints", "sens_impossible", "sens_possible", "sensitize_none", "sensitize_found", "sensitivity:0", "cmp:influence", "cmp:sensitivity_transform"):
+    for k in ("mode:input", "mode:const_fn", "mode:output", "explicit_endpoints", "sens_impossible", "sens_possible", "sensitize_none", "sensitize_found", "sensitivity:0", "cmp:influence", "cmp:influence_of_two_nodes", "cmp:sensitivity_transform"):
         if counters.get(k, 0) < 5:
             out.append(f"{k} seen {counters.get(k, 0)} times")
     return out
